@@ -75,8 +75,11 @@ def exact_duplicates(g, rng=None, p=0.6):
     return type(g)(g.S, g.V, rules)
 
 
+SPARSE_IDS = [0, 5, 9, 14, 20, 27, 35, 44]     # token ids need not be 0..|V|-1 (seeded change C02-9); 0 stays: falsy but not epsilon
+
+
 def int_terminals(g):
-    m = {a: i for i, a in enumerate(sorted(g.V))}
+    m = {a: SPARSE_IDS[i] for i, a in enumerate(sorted(g.V))}
     return G(g.S, frozenset(m.values()), [(w, h, tuple(m.get(y, y) for y in b)) for w, h, b in g.rules])
 
 
